@@ -688,7 +688,7 @@ def stage_walk(ctx, e):
             toks += make(os.path.join(dirpath, nm), nm, kind, depth, plain, must, rel + "/" + nm)
         return k, toks
 
-    n = 120 if ctx.quick() else 4000
+    n = 400 if ctx.quick() else 6000
     lines, reals, metas = [], [], []
     for i in range(n):
         base = f"w{i}"
